@@ -29,7 +29,7 @@ theorem foldBody_mono {f g : Stmt → St → Option St} (hfg : MonoF f g) :
     | some s1 =>
       rw [hr] at h
       rw [hfg st s s1 hr]
-      simp only at h ⊢
+      try simp only at h ⊢
       split
       · rename_i hc; rw [if_pos hc] at h; exact h
       · rename_i hc
@@ -59,7 +59,7 @@ theorem forLoop_mono {f g : Stmt → St → Option St} (hfg : MonoF f g) (x : St
       rw [hr] at h
       rw [loopStmtsBroken_mono hfg b _ r1 hr]
       obtain ⟨s1, br⟩ := r1
-      simp only at h ⊢
+      try simp only at h ⊢
       cases br with
       | true => exact h
       | false => simp only [Bool.false_eq_true, ↓reduceIte] at h ⊢; exact forLoop_mono hfg x b rest s1 r h
@@ -104,7 +104,7 @@ theorem run_mono : ∀ (n : Nat) (t : Task) (s r : St), run n t s = some r → r
         | some s1 =>
           rw [hr] at h
           rw [ih _ _ _ hr]
-          simp only at h ⊢
+          try simp only at h ⊢
           split
           · rename_i hn; rw [if_pos hn] at h; exact h
           · rename_i hn
@@ -151,7 +151,7 @@ theorem run_mono : ∀ (n : Nat) (t : Task) (s r : St), run n t s = some r → r
         | some s1 =>
           rw [hr] at h
           rw [foldStmts_mono hm c _ s1 hr]
-          simp only at h ⊢
+          try simp only at h ⊢
           split
           · rename_i hc; rw [if_pos hc] at h; exact h
           · rename_i hc
@@ -163,77 +163,113 @@ theorem run_mono : ∀ (n : Nat) (t : Task) (s r : St), run n t s = some r → r
               rw [hr2] at h
               rw [loopStmtsBroken_mono hm b _ r2 hr2]
               obtain ⟨s4, br⟩ := r2
-              simp only at h ⊢
+              try simp only at h ⊢
               cases br with
               | true => exact h
               | false =>
                 simp only [Bool.false_eq_true, ↓reduceIte] at h ⊢
                 exact ih _ _ _ h
     | cmd c =>
-      rw [run] at h ⊢
-      split
-      · rename_i hs; rw [if_pos hs] at h; exact h
-      · rename_i hs
-        rw [if_neg hs] at h
-        cases c with
-        | block p => exact foldStmts_mono hm p s r h
-        | subsh p =>
-          simp only at h ⊢
+      cases c with
+      | block p =>
+        rw [run] at h ⊢
+        split
+        · rename_i hs; rw [if_pos hs] at h; exact h
+        · rename_i hs
+          rw [if_neg hs] at h
+          exact foldStmts_mono hm p s r h
+      | subsh p =>
+        rw [run] at h ⊢
+        split
+        · rename_i hs; rw [if_pos hs] at h; exact h
+        · rename_i hs
+          rw [if_neg hs] at h
+          try simp only at h ⊢
           cases hr : foldStmts (fun st => run n (.stmt st)) p (subshellOf s s.out) with
           | none => rw [hr] at h; cases h
           | some s1 => rw [hr] at h; rw [foldStmts_mono hm p _ s1 hr]; exact h
-        | assignSub x p =>
-          simp only at h ⊢
+      | assignSub x p =>
+        rw [run] at h ⊢
+        split
+        · rename_i hs; rw [if_pos hs] at h; exact h
+        · rename_i hs
+          rw [if_neg hs] at h
+          try simp only at h ⊢
           cases hr : foldStmts (fun st => run n (.stmt st)) p (subshellOf s []) with
           | none => rw [hr] at h; cases h
           | some s1 => rw [hr] at h; rw [foldStmts_mono hm p _ s1 hr]; exact h
-        | call f =>
-          simp only at h ⊢
+      | call f =>
+        rw [run] at h ⊢
+        split
+        · rename_i hs; rw [if_pos hs] at h; exact h
+        · rename_i hs
+          rw [if_neg hs] at h
+          try simp only at h ⊢
           cases hf : lookupFn s.funcs f with
           | none => rw [hf] at h; exact h
           | some body =>
             rw [hf] at h
-            simp only at h ⊢
+            try simp only at h ⊢
             cases hr : run n (.stmt body) { s with lastExpandExit := {}, inFunc := true } with
             | none => rw [hr] at h; cases h
             | some s1 => rw [hr] at h; rw [ih _ _ _ hr]; exact h
-        | and x y =>
-          simp only at h ⊢
+      | and x y =>
+        rw [run] at h ⊢
+        split
+        · rename_i hs; rw [if_pos hs] at h; exact h
+        · rename_i hs
+          rw [if_neg hs] at h
+          try simp only at h ⊢
           cases hr : run n (.stmt x) { s with noErrExit := true } with
           | none => rw [hr] at h; cases h
           | some s1 =>
             rw [hr] at h; rw [ih _ _ _ hr]
-            simp only at h ⊢
+            try simp only at h ⊢
             split
             · rename_i hc; rw [if_pos hc] at h; exact ih _ _ _ h
             · rename_i hc; rw [if_neg hc] at h; exact h
-        | or x y =>
-          simp only at h ⊢
+      | or x y =>
+        rw [run] at h ⊢
+        split
+        · rename_i hs; rw [if_pos hs] at h; exact h
+        · rename_i hs
+          rw [if_neg hs] at h
+          try simp only at h ⊢
           cases hr : run n (.stmt x) { s with noErrExit := true } with
           | none => rw [hr] at h; cases h
           | some s1 =>
             rw [hr] at h; rw [ih _ _ _ hr]
-            simp only at h ⊢
+            try simp only at h ⊢
             split
             · rename_i hc; rw [if_pos hc] at h; exact ih _ _ _ h
             · rename_i hc; rw [if_neg hc] at h; exact h
-        | pipe x y =>
-          simp only at h ⊢
+      | pipe x y =>
+        rw [run] at h ⊢
+        split
+        · rename_i hs; rw [if_pos hs] at h; exact h
+        · rename_i hs
+          rw [if_neg hs] at h
+          try simp only at h ⊢
           cases hr : run n (.stmt x) (subshellOf s []) with
           | none => rw [hr] at h; cases h
           | some r2 =>
             rw [hr] at h; rw [ih _ _ _ hr]
-            simp only at h ⊢
+            try simp only at h ⊢
             cases hr2 : run n (.stmt y) s with
             | none => rw [hr2] at h; cases h
             | some s1 => rw [hr2] at h; rw [ih _ _ _ hr2]; exact h
-        | ifc c t e =>
-          simp only at h ⊢
+      | ifc c t e =>
+        rw [run] at h ⊢
+        split
+        · rename_i hs; rw [if_pos hs] at h; exact h
+        · rename_i hs
+          rw [if_neg hs] at h
+          try simp only at h ⊢
           cases hr : foldStmts (fun st => run n (.stmt st)) c { s with noErrExit := true } with
           | none => rw [hr] at h; cases h
           | some s1 =>
             rw [hr] at h; rw [foldStmts_mono hm c _ s1 hr]
-            simp only at h ⊢
+            try simp only at h ⊢
             split
             · rename_i hc; rw [if_pos hc] at h; exact foldStmts_mono hm t _ r h
             · rename_i hc
@@ -242,23 +278,125 @@ theorem run_mono : ∀ (n : Nat) (t : Task) (s r : St), run n t s = some r → r
               | none => exact h
               | els p => exact ih _ _ _ h
               | elif c2 t2 e2 => exact ih _ _ _ h
-        | whl u c b => exact ih _ _ _ h
-        | forc x items b => exact forLoop_mono hm x b items s r h
-        | case w is => exact caseLoop_mono hm _ is false s r h
-        | tru => exact h
-        | fls => exact h
-        | exit m => exact h
-        | ret m => exact h
-        | brk m => exact h
-        | cont m => exact h
-        | setE on => exact h
-        | setPF on => exact h
-        | trapExit b => exact h
-        | trapErr b => exact h
-        | echo w => exact h
-        | test x neg v => exact h
-        | assign x w => exact h
-        | fn f b => exact h
+      | whl u c b =>
+        rw [run] at h ⊢
+        split
+        · rename_i hs; rw [if_pos hs] at h; exact h
+        · rename_i hs
+          rw [if_neg hs] at h
+          exact ih _ _ _ h
+      | forc x items b =>
+        rw [run] at h ⊢
+        split
+        · rename_i hs; rw [if_pos hs] at h; exact h
+        · rename_i hs
+          rw [if_neg hs] at h
+          exact forLoop_mono hm x b items s r h
+      | case w is =>
+        rw [run] at h ⊢
+        split
+        · rename_i hs; rw [if_pos hs] at h; exact h
+        · rename_i hs
+          rw [if_neg hs] at h
+          exact caseLoop_mono hm _ is false s r h
+      | tru =>
+        rw [run] at h ⊢
+        split
+        · rename_i hs; rw [if_pos hs] at h; exact h
+        · rename_i hs
+          rw [if_neg hs] at h
+          exact h
+      | fls =>
+        rw [run] at h ⊢
+        split
+        · rename_i hs; rw [if_pos hs] at h; exact h
+        · rename_i hs
+          rw [if_neg hs] at h
+          exact h
+      | exit m =>
+        rw [run] at h ⊢
+        split
+        · rename_i hs; rw [if_pos hs] at h; exact h
+        · rename_i hs
+          rw [if_neg hs] at h
+          exact h
+      | ret m =>
+        rw [run] at h ⊢
+        split
+        · rename_i hs; rw [if_pos hs] at h; exact h
+        · rename_i hs
+          rw [if_neg hs] at h
+          exact h
+      | brk m =>
+        rw [run] at h ⊢
+        split
+        · rename_i hs; rw [if_pos hs] at h; exact h
+        · rename_i hs
+          rw [if_neg hs] at h
+          exact h
+      | cont m =>
+        rw [run] at h ⊢
+        split
+        · rename_i hs; rw [if_pos hs] at h; exact h
+        · rename_i hs
+          rw [if_neg hs] at h
+          exact h
+      | setE on =>
+        rw [run] at h ⊢
+        split
+        · rename_i hs; rw [if_pos hs] at h; exact h
+        · rename_i hs
+          rw [if_neg hs] at h
+          exact h
+      | setPF on =>
+        rw [run] at h ⊢
+        split
+        · rename_i hs; rw [if_pos hs] at h; exact h
+        · rename_i hs
+          rw [if_neg hs] at h
+          exact h
+      | trapExit b =>
+        rw [run] at h ⊢
+        split
+        · rename_i hs; rw [if_pos hs] at h; exact h
+        · rename_i hs
+          rw [if_neg hs] at h
+          exact h
+      | trapErr b =>
+        rw [run] at h ⊢
+        split
+        · rename_i hs; rw [if_pos hs] at h; exact h
+        · rename_i hs
+          rw [if_neg hs] at h
+          exact h
+      | echo w =>
+        rw [run] at h ⊢
+        split
+        · rename_i hs; rw [if_pos hs] at h; exact h
+        · rename_i hs
+          rw [if_neg hs] at h
+          exact h
+      | test x neg v =>
+        rw [run] at h ⊢
+        split
+        · rename_i hs; rw [if_pos hs] at h; exact h
+        · rename_i hs
+          rw [if_neg hs] at h
+          exact h
+      | assign x w =>
+        rw [run] at h ⊢
+        split
+        · rename_i hs; rw [if_pos hs] at h; exact h
+        · rename_i hs
+          rw [if_neg hs] at h
+          exact h
+      | fn f b =>
+        rw [run] at h ⊢
+        split
+        · rename_i hs; rw [if_pos hs] at h; exact h
+        · rename_i hs
+          rw [if_neg hs] at h
+          exact h
 
 theorem run_mono_le {n m : Nat} (hnm : n ≤ m) {t : Task} {s r : St} (h : run n t s = some r) :
     run m t s = some r := by
@@ -276,7 +414,7 @@ theorem runFile_mono (n : Nat) (p : Prog) (r : Str × Nat) (h : runFile n p = so
   | some s =>
     rw [hr] at h
     rw [foldStmts_mono hm p _ s hr]
-    simp only at h ⊢
+    try simp only at h ⊢
     cases hr2 : run n (.trap ({ s with lastExit := s.exit } : St).callbackExit) { s with lastExit := s.exit } with
     | none => rw [hr2] at h; cases h
     | some s2 => rw [hr2] at h; rw [run_mono _ _ _ _ hr2]; exact h
